@@ -109,6 +109,7 @@ type Def struct {
 }
 
 type VC struct {
+	fpBits map[string]string // float term -> the bit-vector constant that stands for its bit pattern
 	consed map[string]string // (prefix|sort|body) -> definition name
 	defs   []*Def
 	byName map[string]*Def
